@@ -551,6 +551,60 @@ func c04(x *mon.Ctx) {
 		}
 		x.Require("level-shape/"+sh, 0, 12, 18) // acceptable only through the well-formed UpToDate second level (refusing the whole document is allowed too)
 	}
+	// ---- many distinct platforms (PCK certificates), then the first ones again (see manyThenAgain): the SVNs a quote is judged
+	//      by are those of ITS certificate, however many other platforms the process has seen since
+	{
+		r := x.Rand("scale")
+		p := world.RandPlatform(r)
+		for i := range p.Comp {
+			p.Comp[i] = 10
+		}
+		p.PceSvn = 10
+		p.TeeTcb[1] = 0
+		w := world.Honest(r, world.HonestOpts{Shape: world.QuoteShape{AuthLen: 32}, Platform: p})
+		var early []*world.Case
+		add := func(w2 *world.World, name, expect string) {
+			c := w2.Case(world.LColl, "", name)
+			c.Expect, c.ShadowSkip = expect, true
+			early = append(early, c)
+		}
+		add(w, "honest", "accept")
+		reissue := func(w2 *world.World, p2 *world.Platform) {
+			w2.P = p2
+			w2.PKI.Leaf = world.Issue(world.LeafTemplate(world.Far, world.SgxExtension(p2)), w.PKI.Inter, w.PKI.Leaf.Key)
+			w2.Q.Chain = world.ChainPEM(false, w2.PKI.Leaf, w2.PKI.Inter, w2.PKI.Root)
+		}
+		for k := 0; k < 12; k++ {
+			w2 := w.Clone()
+			p2 := *p
+			r.Read(p2.PPID[:])
+			switch k % 3 {
+			case 0: // a platform whose certificate puts one component below every level
+				p2.Comp[k%16] = 9
+				reissue(w2, &p2)
+				add(w2, fmt.Sprintf("platform-below-every-level/%d", k), "reject")
+			case 1:
+				p2.PceSvn = 9
+				reissue(w2, &p2)
+				add(w2, fmt.Sprintf("platform-pcesvn-below-every-level/%d", k), "reject")
+			case 2:
+				p2.Comp[k%16] = 200
+				reissue(w2, &p2)
+				add(w2, fmt.Sprintf("honest-other-platform/%d", k), "accept")
+			}
+		}
+		manyThenAgain(x, "many-platforms-then-the-first-again", early, x.Pick(3000, 140000), func(i int) *world.Case {
+			w2 := w.Clone()
+			p2 := *p
+			r2 := x.Rand(fmt.Sprint("scale-filler", i))
+			r2.Read(p2.PPID[:])
+			for j := range p2.Comp {
+				p2.Comp[j] = 10 + byte(r2.Intn(200))
+			}
+			reissue(w2, &p2)
+			return w2.Case(world.LBase, "", "")
+		})
+	}
 	x.Extra["exhaustive_1_level_space"] = true
 	x.Extra["abstract_levels"] = len(abs)
 	if !x.Quick() {
